@@ -52,6 +52,9 @@ type Cfg struct {
 type Script struct {
 	Cfg   Cfg    `json:"cfg"`
 	Procs [][]Op `json:"procs"`
+	// Setup runs on goroutine 1 before the driver goroutines start, Final on goroutine 1 after they have finished.
+	Setup []Op `json:"setup,omitempty"`
+	Final []Op `json:"final,omitempty"`
 	// NoFinalWait suppresses the quiescing Wait that the driver appends.
 	NoFinalWait bool `json:"noFinalWait,omitempty"`
 }
@@ -417,6 +420,10 @@ func RunScript(s Script, rec *Recorder, seed uint64, watchdog time.Duration) (fi
 	go func() {
 		var esc atomic.Value
 		var wg sync.WaitGroup
+		for _, o := range s.Setup {
+			d.Exec(1, o)
+		}
+		start := make(chan struct{})
 		for i, ops := range s.Procs {
 			wg.Add(1)
 			go func(g int, ops []Op) {
@@ -426,12 +433,17 @@ func RunScript(s Script, rec *Recorder, seed uint64, watchdog time.Duration) (fi
 						esc.Store(fmt.Sprintf("panic escaped to the caller of goroutine %d: %v", g, r))
 					}
 				}()
+				<-start
 				for _, o := range ops {
 					d.Exec(g, o)
 				}
 			}(i+1, ops)
 		}
+		close(start)
 		wg.Wait()
+		for _, o := range s.Final {
+			d.Exec(1, o)
+		}
 		if !s.NoFinalWait {
 			d.Exec(1, Op{Op: "wait"})
 		}
